@@ -186,6 +186,7 @@ pub struct Delivery {
     pub ev:     EvidenceSet,
     pub sched:  Sched,
     pub target: usize,
+    pub mode:   evidence::Delivery,
 }
 
 fn fold_site_hash() -> u64 {
@@ -243,6 +244,7 @@ pub fn deliveries(e: &[Ev]) -> Vec<Delivery> {
                 policy:    PolicySpec::Scripted(entries),
             },
             target: 2,
+            mode:   evidence::Delivery::Plain,
         });
     }
     // --- record: the order in which the judgements are recorded ------------
@@ -259,6 +261,7 @@ pub fn deliveries(e: &[Ev]) -> Vec<Delivery> {
             },
             sched:  Sched::natural(0),
             target: 2,
+            mode:   evidence::Delivery::Plain,
         });
     }
     // Also under different hash keys (the base order itself moves).
@@ -269,6 +272,7 @@ pub fn deliveries(e: &[Ev]) -> Vec<Delivery> {
             ev:     single.clone(),
             sched:  Sched::natural(k),
             target: 2,
+            mode:   evidence::Delivery::Plain,
         });
     }
     // --- grouping by union / by rounds ---------------------------------------
@@ -291,6 +295,15 @@ pub fn deliveries(e: &[Ev]) -> Vec<Delivery> {
             },
             sched:  Sched::natural(0),
             target: 2,
+            mode:   evidence::Delivery::Plain,
+        });
+        out.push(Delivery {
+            family: "union",
+            label:  format!("union-infer_many{g1:?}|{g2:?}"),
+            ev:     out.last().expect("just pushed").ev.clone(),
+            sched:  Sched::natural(0),
+            target: 2,
+            mode:   evidence::Delivery::EqualitiesThroughInferMany,
         });
         let mut rounds = j;
         rounds.push((4, Ev::DynArray { element: 2 }));
@@ -305,6 +318,7 @@ pub fn deliveries(e: &[Ev]) -> Vec<Delivery> {
             },
             sched:  Sched::natural(0),
             target: 2,
+            mode:   evidence::Delivery::Plain,
         });
     }
     out
@@ -338,29 +352,72 @@ fn staged_disagreement(e: &[Ev], res: &mut Option<&mut CaseResult>) -> Option<(S
             judgements: j,
         };
         let at_once = run_unify(&ev, &Sched::natural(0), &UnifyOpts::default());
-        let staged = run_unify(
-            &ev,
-            &Sched::natural(0),
-            &UnifyOpts {
-                mode: evidence::Delivery::Staged,
-                staged_at: Some(first_stage),
-                ..UnifyOpts::default()
-            },
-        );
-        if let Some(r) = res.as_deref_mut() {
-            r.runs += 2;
-            r.steps += at_once.polls + staged.polls;
-            r.fault("unified_between_two_deliveries");
+        // ... through the free function, and through `TypeChecker::unify`
+        for (mode, how) in [(evidence::Delivery::Staged, "a unification"), (evidence::Delivery::StagedThroughTypeChecker, "TypeChecker::unify")] {
+            let staged = run_unify(
+                &ev,
+                &Sched::natural(0),
+                &UnifyOpts {
+                    mode,
+                    staged_at: Some(first_stage),
+                    ..UnifyOpts::default()
+                },
+            );
+            if let Some(r) = res.as_deref_mut() {
+                r.runs += 1;
+                r.steps += staged.polls;
+                r.fault("unified_between_two_deliveries");
+            }
+            let (a, b) = (outcome_of(&at_once, 2), outcome_of(&staged, 2));
+            if a != b {
+                let mut kinds: Vec<String> = e.iter().map(Ev::kind).collect();
+                kinds.sort();
+                let short = |s: &str| s.split(" | ").next().unwrap_or("").to_string();
+                return Some((
+                    format!("staged:[{}] delivered at once gives {} but with {how} in between {}", kinds.join(", "), short(&a), short(&b)),
+                    json!({"evidence": kinds, "split": [g1, g2], "at_once": a, "staged": b}),
+                ));
+            }
         }
-        let (a, b) = (outcome_of(&at_once, 2), outcome_of(&staged, 2));
-        if a != b {
-            let mut kinds: Vec<String> = e.iter().map(Ev::kind).collect();
-            kinds.sort();
-            let short = |s: &str| s.split(" | ").next().unwrap_or("").to_string();
-            return Some((
-                format!("staged:[{}] delivered at once gives {} but with a unification in between {}", kinds.join(", "), short(&a), short(&b)),
-                json!({"evidence": kinds, "split": [g1, g2], "at_once": a, "staged": b}),
-            ));
+        if let Some(r) = res.as_deref_mut() {
+            r.runs += 1;
+            r.steps += at_once.polls;
+        }
+        // The plain two-stage form as well: the first group, a unification,
+        // the second group - all on one variable.
+        let mut one: Vec<(usize, Ev)> = Vec::new();
+        for i in g1.iter().chain(g2.iter()) {
+            one.push((2, e[*i].clone()));
+        }
+        let one = EvidenceSet {
+            n_vars:     3,
+            judgements: one,
+        };
+        let at_once = run_unify(&one, &Sched::natural(0), &UnifyOpts::default());
+        for (mode, how) in [(evidence::Delivery::Staged, "a unification"), (evidence::Delivery::StagedThroughTypeChecker, "TypeChecker::unify")] {
+            let staged = run_unify(
+                &one,
+                &Sched::natural(0),
+                &UnifyOpts {
+                    mode,
+                    staged_at: Some(g1.len()),
+                    ..UnifyOpts::default()
+                },
+            );
+            if let Some(r) = res.as_deref_mut() {
+                r.runs += 1;
+                r.steps += staged.polls;
+            }
+            let (a, b) = (outcome_of(&at_once, 2), outcome_of(&staged, 2));
+            if a != b {
+                let mut kinds: Vec<String> = e.iter().map(Ev::kind).collect();
+                kinds.sort();
+                let short = |s: &str| s.split(" | ").next().unwrap_or("").to_string();
+                return Some((
+                    format!("staged:[{}] stated at once gives {} but with {how} after the first part {}", kinds.join(", "), short(&a), short(&b)),
+                    json!({"evidence": kinds, "split": [g1, g2], "at_once": a, "staged": b}),
+                ));
+            }
         }
     }
     None
@@ -375,7 +432,14 @@ pub fn evaluate(e: &[Ev], res: Option<&mut CaseResult>) -> Option<(String, Value
         return Some(found);
     }
     for d in &ds {
-        let o = run_unify(&d.ev, &d.sched, &UnifyOpts::default());
+        let o = run_unify(
+            &d.ev,
+            &d.sched,
+            &UnifyOpts {
+                mode: d.mode,
+                ..UnifyOpts::default()
+            },
+        );
         if let Some(r) = res.as_deref_mut() {
             r.runs += 1;
             r.steps += o.polls;
@@ -510,7 +574,7 @@ impl Check for C16Check {
         CheckInfo {
             id: "C16",
             level: "fault_enumeration",
-            rule: "case = one multiset E of distinct pieces from the 38-piece domain (Any, dynamic bytes, 4 free usages x 6 widths, 4 fixed-width usages, Mapping(a,b), Mapping(b,a), DynArray(a), DynArray(b), FixedArray(a)[3], FixedArray(b)[3], FixedArray(a)[5], a conflict): all 703 pairs and all 8436 triples (thorough: also all 73815 quadruples); each E is delivered to the real unifier in all |E|! fold orders (scripted at the fold scheduling point), in all |E|! recording orders, under 2 further hash keys, in every 2-way split over two equated variables, and in every 2-way split over two variables that become equal only in a later round; all deliveries must give the same normalised outcome. Each 2-way split is also delivered with a unification in between two stages (derived equality first, then the same equality stated and the deriving class made contradictory), which must equal the same evidence unified once. 25 further cases: one 128-bit field shared by two words, each word also seen with a layout that cuts the field (at 16/32/64/96/112 bits), under 15 schedules; the field's layout must be the one the two cuts give when stated about the field directly. evaluations = unifier runs; non-trivial = a multiset whose deliveries folded at least two pieces (all of them); distinct = distinct multisets",
+            rule: "case = one multiset E of distinct pieces from the 38-piece domain (Any, dynamic bytes, 4 free usages x 6 widths, 4 fixed-width usages, Mapping(a,b), Mapping(b,a), DynArray(a), DynArray(b), FixedArray(a)[3], FixedArray(b)[3], FixedArray(a)[5], a conflict): all 703 pairs and all 8436 triples (thorough: also all 73815 quadruples); each E is delivered to the real unifier in all |E|! fold orders (scripted at the fold scheduling point), in all |E|! recording orders, under 2 further hash keys, in every 2-way split over two equated variables, and in every 2-way split over two variables that become equal only in a later round; all deliveries must give the same normalised outcome. Each 2-way split is also delivered with a unification in between two stages (derived equality first, then the same equality stated and the deriving class made contradictory), which must equal the same evidence unified once, through the free function and through TypeChecker::unify; the equated split is also recorded with infer_many. 25 further cases: one 128-bit field shared by two words, each word also seen with a layout that cuts the field (at 16/32/64/96/112 bits), under 15 schedules; the field's layout must be the one the two cuts give when stated about the field directly. evaluations = unifier runs; non-trivial = a multiset whose deliveries folded at least two pieces (all of them); distinct = distinct multisets",
             assumptions: &[
                 "merge is only observed through unification::unify, so the check cannot demand more than the system-level statement",
                 "outcomes are compared after erasing conflict payloads and replacing type variables by the class of the named variables a, b",
